@@ -21,6 +21,8 @@ def records(seq):
             out.append({'seq': seq, 'i': i, 'nested': [1, None]})
     if seq % 4 == 3:
         out.append({'counts': {'a': seq}})   # emitted as a defaultdict
+    if seq % 5 == 2:
+        out.append({'by_epoch': {0: 1.0, 1: 0.5, seq: None}})   # integer keys (loss by epoch): a record is kept as given
     return out
 
 
